@@ -30,6 +30,12 @@ impl TranspositionTable {
         }
     }
 
+    /// Verification hook: every entry currently held
+    #[cfg(flounder_verif)]
+    pub fn verif_entries(&self) -> Vec<Entry> {
+        self.table.values().copied().collect()
+    }
+
     pub fn retrieve(&self, key: u64) -> Option<&Entry> {
         let entry = self.table.get(&key);
         if entry.is_some() && entry.unwrap().hash_key == key {
